@@ -37,9 +37,11 @@ fn splitmix(x: &mut u64) -> u64 {
 }
 
 /// One measured step on a fresh environment. `layout[i]` = kind of the i-th submitted instruction
-/// (0 new ask, 1 new bid below the quote, 2 cancel of a resting order, 3 crossing re-price).
-/// Returns the processed position of every submitted instruction.
-fn measured_step(n: usize, market: bool, trading: bool, layout: &[u8], rng: &mut Xoroshiro128StarStar) -> Result<Vec<usize>, String> {
+/// (0 new ask, 1 new bid below the quote, 2 cancel of a resting order, 3 crossing re-price, 4 cancel of
+/// the most recent order created earlier in this same batch - or a new ask if there is none).
+/// Returns the processed position of every submitted instruction; `None` for a kind-4 cancel that was
+/// processed before the placement it refers to (it is then a no-op and leaves no timestamp).
+fn measured_step(n: usize, market: bool, trading: bool, layout: &[u8], rng: &mut Xoroshiro128StarStar) -> Result<Vec<Option<usize>>, String> {
     let assets = if market { 2 } else { 0 };
     let na = assets.max(1);
     let ticks = [1u32, 1, 1, 1];
@@ -51,7 +53,7 @@ fn measured_step(n: usize, market: bool, trading: bool, layout: &[u8], rng: &mut
     }
     let mut pool: Vec<(usize, usize)> = vec![];
     for (i, k) in layout.iter().enumerate() {
-        if *k >= 2 {
+        if *k == 2 || *k == 3 {
             let a = i % na;
             let id = env.place_order(a, false, 1, 7, Some(MID + 1 + (i as u32 % 10))).map_err(|e| e)?;
             pool.push(id);
@@ -65,24 +67,35 @@ fn measured_step(n: usize, market: bool, trading: bool, layout: &[u8], rng: &mut
         env.disable_trading();
     }
     let start = env.time();
-    let mut readers: Vec<(bool, (usize, usize))> = vec![]; // (by arrival time?, order id)
+    // reader kind: 0 = by arrival time, 1 = by end time (must be terminal), 2 = by end time if cancelled
+    let mut readers: Vec<(u8, (usize, usize))> = vec![];
     let mut p = 0;
+    let mut last_new: Option<(usize, usize)> = None;
     for (i, k) in layout.iter().enumerate() {
         let a = i % na;
-        match *k {
+        let k = if *k == 4 && last_new.is_none() { 0 } else { *k };
+        match k {
             0 => {
                 let id = env.place_order(a, false, 1 + (i as u32 % 3), 1, Some(MID + 1 + (i as u32 % 10)))?;
-                readers.push((true, id));
+                readers.push((0, id));
+                last_new = Some(id);
             }
             1 => {
                 let id = env.place_order(a, true, 1 + (i as u32 % 3), 2, Some(MID - 15 + (i as u32 % 9)))?;
-                readers.push((true, id));
+                readers.push((0, id));
+                last_new = Some(id);
             }
             2 => {
                 let id = pool[p];
                 p += 1;
                 env.cancel_order(id);
-                readers.push((false, id));
+                readers.push((1, id));
+            }
+            4 => {
+                // each same-batch order is cancelled at most once
+                let id = last_new.take().unwrap();
+                env.cancel_order(id);
+                readers.push((2, id));
             }
             _ => {
                 let id = pool[p];
@@ -92,32 +105,41 @@ fn measured_step(n: usize, market: bool, trading: bool, layout: &[u8], rng: &mut
                 } else {
                     env.cancel_order(id);
                 }
-                readers.push((false, id));
+                readers.push((1, id));
             }
         }
     }
     env.step(rng);
-    let mut pos = vec![usize::MAX; n];
+    let mut pos = vec![None; n];
     let mut seen = vec![false; n];
-    for (i, (by_arrival, id)) in readers.iter().enumerate() {
+    for (i, (kind, id)) in readers.iter().enumerate() {
         let o = env.order(*id);
-        let t = if *by_arrival {
-            if o.status != St::Active {
-                return Err(format!("new order {:?} is {:?} after the step", id, o.status));
+        let t = match *kind {
+            0 => {
+                if o.status != St::Active && o.status != St::Cancelled {
+                    return Err(format!("new order {:?} is {:?} after the step", id, o.status));
+                }
+                o.arr_time
             }
-            o.arr_time
-        } else {
-            if !o.status.terminal() {
-                return Err(format!("order {:?} targeted by instruction {} is still {:?}", id, i, o.status));
+            1 => {
+                if !o.status.terminal() {
+                    return Err(format!("order {:?} targeted by instruction {} is still {:?}", id, i, o.status));
+                }
+                o.end_time
             }
-            o.end_time
+            _ => {
+                if o.status != St::Cancelled {
+                    continue; // processed before the placement: no timestamp
+                }
+                o.end_time
+            }
         };
         let q = t.wrapping_sub(start);
         if q >= n as u64 || seen[q as usize] {
             return Err(format!("processed positions are not a permutation of 0..{}: instruction {} at time {} (start {})", n, i, t, start));
         }
         seen[q as usize] = true;
-        pos[i] = q as usize;
+        pos[i] = Some(q as usize);
     }
     Ok(pos)
 }
@@ -174,9 +196,13 @@ fn run(c: &ShuffleCase) -> (Vec<(&'static str, u64)>, bool, Result<(), Failure>)
             if a1 != a2 {
                 return (classes, false, Err(Failure::new("C15", "C15 same generator state gave different permutations", format!("{:?} vs {:?}", a1, a2))));
             }
-            if a1 != b {
+            // positions that both batches reveal must coincide (a same-batch cancel processed before its
+            // placement reveals nothing)
+            if a1.iter().zip(b.iter()).any(|(x, y)| x.is_some() && y.is_some() && x != y) {
                 return (classes, false, Err(Failure::new("C15", "C15 processing order depends on what the instructions are", format!("layout {:?} -> {:?}; layout {:?} -> {:?}", la, a1, lb, b))));
             }
+            let mut classes = classes;
+            classes.push(("det_batches_with_instruction_for_order_of_same_batch", (la.contains(&4) || lb.contains(&4)) as u64));
             (classes, kinds >= 2 && n >= 2, Ok(()))
         }
         ShuffleCase::Uniform { n, market, stream, steps, seed, alpha_exp, cases_in_run, trading } => {
@@ -201,8 +227,8 @@ fn run(c: &ShuffleCase) -> (Vec<(&'static str, u64)>, bool, Result<(), Failure>)
                     let mut r = Xoroshiro128StarStar::seed_from_u64(step_seed);
                     measured_step(n, *market, *trading, &layout, &mut r)
                 };
-                let pos = match pos {
-                    Ok(p) => p,
+                let pos: Vec<usize> = match pos {
+                    Ok(p) => p.into_iter().map(|x| x.expect("harness: campaign layouts reveal every position")).collect(),
                     Err(e) => return (vec![], false, Err(Failure::new("C15", "C15 processed positions are not a permutation", e))),
                 };
                 if small {
@@ -298,7 +324,7 @@ pub fn parts(tier: Tier) -> (Vec<Part<Case>>, String) {
         kind: PartKind::Random {
             make: Box::new(|| {
                 (prop_oneof![4 => 2usize..=8, 1 => Just(16usize), 1 => Just(32usize), 1 => Just(64usize)], any::<bool>(), any::<u64>())
-                    .prop_flat_map(|(n, market, seed)| (proptest::collection::vec(0u8..4, n), proptest::collection::vec(0u8..4, n), 0u8..5).prop_map(move |(layout_a, layout_b, t)| Case::Shuffle(ShuffleCase::Det { n, market, seed, layout_a, layout_b, trading: t != 0 })))
+                    .prop_flat_map(|(n, market, seed)| (proptest::collection::vec(0u8..5, n), proptest::collection::vec(0u8..5, n), 0u8..5).prop_map(move |(layout_a, layout_b, t)| Case::Shuffle(ShuffleCase::Det { n, market, seed, layout_a, layout_b, trading: t != 0 })))
                     .boxed()
             }),
             cases: tier.pick(40_000, 600_000),
@@ -306,6 +332,6 @@ pub fn parts(tier: Tier) -> (Vec<Part<Case>>, String) {
     };
     (
         vec![det, uniform],
-        "Two kinds of case. (1) determinism / content independence: one generator state, one batch size, two generated batches of different content and kind layout (new asks, new bids, cancels of resting orders, crossing re-prices) on fresh environments: the map submission index -> processed position must be identical for both batches and for a repeated run (non-trivial: batch with >= 2 instruction kinds). (2) uniformity campaign: for one (batch size, Env or MarketEnv<2>, generator freshly seeded per step or one continuing stream) the processed positions of N seeded steps are recovered from arrival / end timestamps and the count of each of the n! permutations (n <= 6), each (instruction, position) cell and each ordered pair must lie within the Bernstein deviation for alpha = 1e-9 divided by the number of campaigns, with a union bound over all cells (non-trivial: campaign with mixed instruction kinds). Every step also checks that the positions are a bijection of 0..n.".to_string(),
+        "Two kinds of case. (1) determinism / content independence: one generator state, one batch size, two generated batches of different content and kind layout (new asks, new bids, cancels of resting orders, crossing re-prices, cancels of an order placed earlier in the same batch) on fresh environments: the map submission index -> processed position must be identical for both batches wherever both reveal it (a same-batch cancel processed before its placement leaves no timestamp) and for a repeated run (non-trivial: batch with >= 2 instruction kinds). (2) uniformity campaign: for one (batch size, Env or MarketEnv<2>, generator freshly seeded per step or one continuing stream) the processed positions of N seeded steps are recovered from arrival / end timestamps and the count of each of the n! permutations (n <= 6), each (instruction, position) cell and each ordered pair must lie within the Bernstein deviation for alpha = 1e-9 divided by the number of campaigns, with a union bound over all cells (non-trivial: campaign with mixed instruction kinds). Every step also checks that the positions are a bijection of 0..n.".to_string(),
     )
 }
